@@ -6,6 +6,7 @@ require (
 	github.com/fasthttp/websocket v1.5.0
 	github.com/google/uuid v1.3.0
 	github.com/hprose/hprose-golang/v3 v3.0.0
+	github.com/valyala/fasthttp v1.37.0
 )
 
 replace github.com/hprose/hprose-golang/v3 => /repo
